@@ -65,43 +65,41 @@ impl GraphCase {
         Ok(g)
     }
     pub fn build(&self) -> Result<G, graphrs::Error> {
-        self.readd(self.build_plain())
-    }
-    pub fn build_scaled(&self, div: u64) -> Result<G, graphrs::Error> {
-        self.readd(self.build_scaled_plain(div))
-    }
-    pub fn build_divided(&self, den: f64) -> Result<G, graphrs::Error> {
-        self.readd(self.build_divided_plain(den))
-    }
-    fn build_plain(&self) -> Result<G, graphrs::Error> {
-        Graph::new_from_nodes_and_edges(
-            self.nodes.iter().map(|n| N { name: *n, attr: None }.to_node()).collect(),
-            { let mut arcs = crate::store::EdgeArcs::default(); self.edges.iter().map(|e| arcs.get(&E { u: e.0, v: e.1, w: e.2, attr: None })).collect() },
-            self.specs.to_graph_specs(),
-        )
+        let mut arcs = crate::store::EdgeArcs::default();
+        let edges: Vec<std::sync::Arc<graphrs::Edge<u32, u32>>> = self.edges.iter().map(|e| arcs.get(&E { u: e.0, v: e.1, w: e.2, attr: None })).collect();
+        self.two_phase(edges)
     }
     /// the same graph with every weight divided by `div` (a power of two: exact in f64): non-integer weights for the
     /// algorithms whose model works on the integer numerators
-    fn build_scaled_plain(&self, div: u64) -> Result<G, graphrs::Error> {
-        Graph::new_from_nodes_and_edges(
-            self.nodes.iter().map(|n| N { name: *n, attr: None }.to_node()).collect(),
-            self.edges.iter().map(|e| match e.2 {
-                Some(w) => graphrs::Edge::with_weight(e.0, e.1, w as f64 / div as f64),
-                None => graphrs::Edge::new(e.0, e.1),
-            }).collect(),
-            self.specs.to_graph_specs(),
-        )
+    pub fn build_scaled(&self, div: u64) -> Result<G, graphrs::Error> {
+        self.build_divided(div as f64)
     }
-    /// the same graph with every weight divided by an arbitrary number (not exact in f64)
-    fn build_divided_plain(&self, den: f64) -> Result<G, graphrs::Error> {
-        Graph::new_from_nodes_and_edges(
+    /// the same graph with every weight divided by an arbitrary number (not exact in f64 unless it is a power of two)
+    pub fn build_divided(&self, den: f64) -> Result<G, graphrs::Error> {
+        self.two_phase(self.edges.iter().map(|e| match e.2 {
+            Some(w) => graphrs::Edge::with_weight(e.0, e.1, w as f64 / den),
+            None => graphrs::Edge::new(e.0, e.1),
+        }).collect())
+    }
+    /// Two-phase construction: `new_from_nodes_and_edges` with the first part of the edge list, then every read API that
+    /// could fill a cache is called (results discarded), then the remaining edges go in through `add_edges`, then some nodes
+    /// are added again. For an edge list that is accepted this is the graph `new_from_nodes_and_edges` builds in one call
+    /// (same nodes, same edges in the same order); a rejected edge is rejected with the same error in either phase. Whatever
+    /// the graph memoises between mutations is stale afterwards if it is not invalidated.
+    fn two_phase(&self, edges: Vec<std::sync::Arc<graphrs::Edge<u32, u32>>>) -> Result<G, graphrs::Error> {
+        let cut = match (self.nodes.len() + 2 * edges.len()) % 3 { 0 => edges.len(), 1 => edges.len() * 2 / 3, _ => edges.len() / 2 };
+        let mut rest = edges;
+        let first: Vec<_> = rest.drain(..cut).collect();
+        let mut g = Graph::new_from_nodes_and_edges(
             self.nodes.iter().map(|n| N { name: *n, attr: None }.to_node()).collect(),
-            self.edges.iter().map(|e| match e.2 {
-                Some(w) => graphrs::Edge::with_weight(e.0, e.1, w as f64 / den),
-                None => graphrs::Edge::new(e.0, e.1),
-            }).collect(),
+            first,
             self.specs.to_graph_specs(),
-        )
+        )?;
+        if !rest.is_empty() {
+            warm_caches(&g);
+            g.add_edges(rest)?;
+        }
+        self.readd(Ok(g))
     }
     /// smaller variants: drop an edge, drop a node (with its edges), weights to 1
     pub fn candidates(&self) -> Vec<GraphCase> {
@@ -180,4 +178,22 @@ pub fn gen_graph(rng: &mut Rng, o: &GenOpts) -> GraphCase {
         }
     }
     GraphCase { specs, nodes, edges }
+}
+
+
+/// calls every read API whose answer a graph could memoise (degree tables, sizes, maps, per-node lists); results are discarded
+pub fn warm_caches(g: &G) {
+    let _ = g.get_degree_for_all_nodes();
+    let _ = g.get_in_degree_for_all_nodes();
+    let _ = g.get_out_degree_for_all_nodes();
+    let _ = g.get_weighted_degree_for_all_nodes();
+    let _ = g.get_weighted_in_degree_for_all_nodes();
+    let _ = g.get_weighted_out_degree_for_all_nodes();
+    let _ = (g.size(true), g.size(false), g.number_of_edges(), g.number_of_nodes(), g.get_density(), g.edges_have_weight());
+    let _ = (g.get_all_edges().len(), g.get_all_nodes().len(), g.get_successors_map().len(), g.get_predecessors_map().len());
+    let _ = g.get_sparse_adjacency_matrix();
+    for n in g.get_all_node_names().into_iter().copied().collect::<Vec<u32>>() {
+        let _ = (g.get_node_degree(n), g.get_node_weighted_degree(n), g.get_edges_for_node(n).map(|v| v.len()), g.get_neighbor_nodes(n).map(|v| v.len()));
+        let _ = (g.get_successor_nodes(n).map(|v| v.len()), g.get_predecessor_nodes(n).map(|v| v.len()), g.get_successors_or_neighbors(n).len());
+    }
 }
